@@ -84,8 +84,24 @@ def rules(ctx, db):
                and s["r"].get("var") == "Ok" and s["a"]["l"] == 0]
         good = bool(oks) and bool(ts)
         for o in oks:
-            via_try = guarded_by_variant(f, o, r"^flume::Sender::<T>::try_send$", 0) is not None
+            from ..util import guarded_by_variant_strict
+            via_try = guarded_by_variant_strict(f, o, r"^flume::Sender::<T>::try_send$", 0) is not None
             via_send = dominated_by_any(f, sd, o) is not None and dominated_by_any(f, sp, o) is not None
+            # ... or the job travels with the worker that was spawned for it: the spawn's closure is built from the
+            # payload try_send gave back (TrySendError::Full)
+            via_spawn = False
+            for sb in sp:
+                if not f.cfg.dominates(sb, o):
+                    continue
+                t_sp = f.blocks[sb]["t"]
+                for a in t_sp.get("args", []):
+                    pl = op_place(a)
+                    if pl is None:
+                        continue
+                    locs, cr, places = data_deps(f, pl["l"])
+                    if any(any(isinstance(x, list) and x[0] == "d" and x[1] == "Full" for x in q["p"]) for q in places):
+                        via_spawn = True
+            via_send = via_send or via_spawn
             if not (via_try or via_send):
                 good = False
         ctx.ob("R5", "success-means-handed-to-a-worker", good,
@@ -180,8 +196,17 @@ def rules(ctx, db):
             continue
         rc = [bb for bb, _ in calls(f, r"^flume::Receiver::<T>::recv_timeout$")]
         rn = [bb for bb, _ in calls(f, r"asyncify::Dispatchable::run$")]
-        ok = bool(rc) and bool(rn) and all(guarded_by_variant(f, b, r"^flume::Receiver::<T>::recv_timeout$", 0) is not None for b in rn) \
-            and rc[0] in f.cfg.reach_set([rn[0]])
+        def _own_first_job(b):
+            # `first.run()`: the job the worker was spawned for (a captured upvar of the worker closure)
+            t_ = f.blocks[b]["t"]
+            pl = op_place(t_["args"][0]) if t_.get("args") else None
+            if pl is None:
+                return False
+            locs, cr, places = data_deps(f, pl["l"])
+            return (pl["l"] == 1 or 1 in locs) and not any(call_matches(ct, r"recv_timeout$") for _, ct in cr)
+        looped = [b for b in rn if guarded_by_variant(f, b, r"^flume::Receiver::<T>::recv_timeout$", 0) is not None]
+        ok = bool(rc) and bool(looped) and all((b in looped) or _own_first_job(b) for b in rn) \
+            and any(rc[0] in f.cfg.reach_set([b]) for b in looped)
         ctx.ob("R5", "worker-runs-every-received-job", ok,
                "the worker loop runs each job it receives and then waits for the next one", f)
 
@@ -209,9 +234,24 @@ def rule_completion_channel(ctx, db):
                "created with %s" % n, f)
 
 
+def rule_dispatch_never_blocks(ctx, db):
+    R = ctx.rule
+    R("R7", "WMC", "AsyncifyPool::dispatch never blocks its caller (the runtime thread): the job goes to an idle worker with "
+      "try_send, travels with a newly spawned worker, or is handed back — no blocking send on the rendezvous channel")
+    ds = [f for f in db.fns.values() if f.name.startswith("compio_driver::asyncify::AsyncifyPool::dispatch")]
+    if any(f.id.startswith("compio_driver::asyncify::") for f in db.fns.values()) and not ds:
+        ctx.missing("R7", "AsyncifyPool::dispatch")
+    for f in ds:
+        blocking = calls(f, r"^flume::Sender::<T>::(send|send_timeout|send_deadline)$") + calls(f, r"^flume::Receiver::<T>::(recv|recv_timeout|recv_deadline)$")
+        ctx.ob("R7", "dispatch-has-no-blocking-channel-call:" + f.short, not blocking and bool(calls(f, r"^flume::Sender::<T>::try_send$")) if f.kind not in ("closure",) else not blocking,
+               "dispatch uses try_send only (a blocking send waits for a receiver that may never come: a freshly spawned worker "
+               "whose first recv_timeout already expired)", f)
+
+
 def rules_all(ctx, db):
     rules(ctx, db)
     rule_completion_channel(ctx, db)
+    rule_dispatch_never_blocks(ctx, db)
     if ctx.tier == "thorough" and ctx.cfg == "A":
         from .. import witness
         witness.obligations(ctx, "C17")
